@@ -120,6 +120,18 @@ TARGETS["encode_kfd"] = dict(
                  calls={"self.is_solved()": ("is_solved", BOOL), "self.weight_type == int": ("weight_is_int", BOOL)},
                  flows=True))
 
+TARGETS["encode_kfdw"] = dict(
+    file="flowpaths/kflowdecomp.py", cls="kFlowDecomp", func="_encode_flow_decomposition_with_given_weights", params=[SELFOBJ], defaults=[], ret=NONE, emits=True,
+    selfobj=dict(inputs=_PM_IN + [("edge_vars", VarDictK("fEdge", K3)), ("edges_to_ignore", Set(EDGE)), ("flow_attr", ATTR),
+                                  ("solution_weights_superset", List(NUM)), ("original_k", INT)],
+                 outputs=[],
+                 calls={"self.is_solved()": ("is_solved", BOOL),
+                        "self.optimization_options.get('optimize_with_safe_paths', False)": ("opt_safe_paths", BOOL),
+                        "self.optimization_options.get('optimize_with_safe_sequences', False)": ("opt_safe_sequences", BOOL),
+                        "self.optimization_options.get('optimize_with_safe_zero_edges', False)": ("opt_safe_zero_edges", BOOL),
+                        "self.optimization_options.get('optimize_with_flow_safe_paths', False)": ("opt_flow_safe_paths", BOOL)},
+                 flows=True))
+
 # a query of stDiGraph on data networkx computed (condensation): the expressions below are inputs of the model
 TARGETS["is_scc_edge"] = dict(file="flowpaths/stdigraph.py", cls="stDiGraph", func="is_scc_edge", params=[SELFOBJ, NODE, NODE], defaults=[], ret=BOOL,
                               selfobj=dict(inputs=[], outputs=[],
@@ -148,13 +160,21 @@ PRIMITIVES = {
 }
 
 
-def check_primitives(classdef):
+OBJECTIVE_PRIMITIVE = dict(args="self, expr, sense='minimize'", path=[
+    ("stmt", 0, "if sense not in ['minimize', 'min', 'maximize', 'max']:\n    utils.logger.error(f'{__name__}: The objective sense must be either `minimize` or `maximize`.')\n"
+                "    raise ValueError(f'Objective sense {sense} is not supported. Only [\"minimize\", \"min\", \"maximize\", \"max\"] are supported.')"),
+    ("stmt", 1, "self.optimization_sense = sense"),
+    ("if-test", 2, "self.external_solver == 'highs'"),
+    ("if-body", 2, "self.solver.set_objective_without_solving(expr, sense=sense)")])
+
+
+def check_primitives(classdef, extra=None):
     def norm(src): return ast.dump(ast.parse(src))
     def body_of(f):
         b = list(f.body)
         if b and isinstance(b[0], ast.Expr) and isinstance(b[0].value, ast.Constant) and isinstance(b[0].value.value, str): b = b[1:]
         return b
-    for name, spec in PRIMITIVES.items():
+    for name, spec in list(PRIMITIVES.items()) + list((extra or {}).items()):
         fs = [n for n in classdef.body if isinstance(n, ast.FunctionDef) and n.name == name]
         if len(fs) != 1: raise Unsupported("source layout: SolverWrapper.%s not found exactly once" % name)
         f = fs[0]
@@ -352,6 +372,7 @@ class Fn:
         if self.selfobj and self.selfobj.get("lengths"): self.s_extra.append(("lengths", Dict(EDGE, NUM)))
         if self.selfobj and self.selfobj.get("flows"): self.s_extra.append(("flows", Dict(EDGE, NUM)))
         self.uses_fuel = any(isinstance(n, ast.While) for n in ast.walk(self.fdef))
+        self.uses_objective = False
         self.emits = bool(self.spec.get("emits"))
         self.callees = []              # other translated targets this function calls (their Gen modules are required)
         self.wrapper_classdef = None
@@ -364,7 +385,9 @@ class Fn:
                 self.wrapper_classdef = ws[0]
             else:
                 self.wrapper_classdef = self.classdef
-            check_primitives(self.wrapper_classdef)
+            uses_obj = any(isinstance(n, ast.Attribute) and n.attr == "set_objective" for n in ast.walk(self.fdef))
+            check_primitives(self.wrapper_classdef, {"set_objective": OBJECTIVE_PRIMITIVE} if uses_obj else None)
+            self.uses_objective = uses_obj
         self.collect_names()
 
     @staticmethod
@@ -1089,6 +1112,14 @@ class Fn:
         if m == "add_variables":
             cols, fam, nm, key, g = self.add_variables_call(e, env)
             return self.guarded(g, "py_assign (fun s => emit_out %s [] s)" % cols)
+        if m == "set_objective":
+            b = self.bind_args(e, ["expr", "sense"], {"sense": "minimize"})
+            t, ty, g = self.expr(b["expr"], env)
+            if ty not in (LEXP, VAR): raise Unsupported("objective of type %s" % show(ty), e)
+            sn = b.get("sense")
+            sn = "minimize" if sn is None else (sn.value if isinstance(sn, ast.Constant) else None)
+            if sn not in ("minimize", "min", "maximize", "max"): raise Unsupported("objective sense (only a literal minimize / maximize)", e)
+            return self.guarded(g, "py_assign (fun s => set_o_obj (Some (%s, %s)) s)" % (coerce(t, ty, LEXP, e), "true" if sn in ("maximize", "max") else "false"))
         wcls = "SolverWrapper" if self.selfobj else self.spec["cls"]
         callee = [k for k, v in TARGETS.items() if v.get("emits") and not v.get("selfobj") and v["cls"] == wcls and v["func"] == m]
         if len(callee) != 1 or callee[0] == self.target:
@@ -1395,6 +1426,7 @@ class Fn:
         fields = [(self.xname[n], gty(vt[n])) for n in order]
         if self.emits:       # the columns and rows handed to the solver so far, in order
             fields += [("o_cols", "(list col)"), ("o_rows", "(list row)")]
+        if self.uses_objective: fields += [("o_obj", "(option (lexp * bool))")]      # the objective last set: expression, maximise?
         if self.builds: fields += [("o_graph", "mgraph")]
         for a, ty in (self.selfobj["outputs"] if self.selfobj else []): fields += [("at_" + a, gty(ty))]
         fields = fields or [("x_unit", "unit")]
@@ -1416,6 +1448,7 @@ class Fn:
         for n in order:
             init.append(self.aname[n] if n in self.state_params else dflt(vt[n]))
         if self.emits: init += ["[]", "[]"]
+        if self.uses_objective: init += ["None"]
         if self.builds: init += ["py_m_empty"]
         for a, ty in (self.selfobj["outputs"] if self.selfobj else []): init += ["in_" + a if a in self.s_in else dflt(ty)]
         if not init: init = ["tt"]
@@ -1425,7 +1458,7 @@ class Fn:
         L.append(self.ind(body) + ".")
         L.append("")
         if self.emits and self.selfobj:
-            outs = ["o_cols", "o_rows"] + ["at_" + a for a, _ in self.selfobj["outputs"]]
+            outs = ["o_cols", "o_rows"] + (["o_obj"] if self.uses_objective else []) + ["at_" + a for a, _ in self.selfobj["outputs"]]
             L.append("Definition fn %s :=" % binder)
             L.append("  let r := body %s (init_st %s) in (%s)." % (names, names, ", ".join(["py_outcome (fst r)"] + ["%s (snd r)" % o for o in outs])))
         elif self.emits:
@@ -1525,7 +1558,8 @@ REJECT_EMIT = {
     "log2 alone": "n = log2(ub)",
     "arithmetic on the bit count": "n = ceil(log2(ub))\nm = n + 1",
     "backend test": "if self.external_solver == 'highs':\n    self.add_constraint(product_var <= ub, name=name)",
-    "other wrapper method": "self.set_objective(product_var)",
+    "other wrapper method": "self.optimize()",
+    "objective with a computed sense": "self.set_objective(product_var + 0, sense=name)",
     "literal name_prefix": "v = self.add_variables([0], name_prefix='foo', lb=0, ub=1)",
     "name_prefix from a plain string": "v = self.add_variables(list(range(2)), name_prefix=f'binary_{name}', lb=0, ub=1)",
     "list literal": "for r in [product_var]:\n    self.add_constraint(r <= ub, name=name)",
